@@ -412,11 +412,23 @@ def _bigindex(case):
     d = gen.tmpdir()
     p = os.path.join(d, f"big-{os.getpid()}.cool")
     try:
-        bins = gen.layout_bins([n], 10)
-        iu = np.triu_indices(n)
-        b1, b2 = iu[0].astype(np.int64), iu[1].astype(np.int64)
-        df = pd.DataFrame({"bin1_id": b1, "bin2_id": b2, "count": np.ones(len(b1), dtype=np.int32)})
-        impl(cooler.create_cooler, p, gen.bins_df(bins), df, ordered=True)
+        if case.get("bigrow"):
+            # ONE row fills a whole literal block: row 0 holds 10^6 pixels, row 1 starts exactly at offset 10^6 and holds
+            # 10^6 pixels (the second block consists of a single run), then two short rows and the last row
+            n = 1_000_003
+            bdf = pd.DataFrame({"chrom": ["c1"] * n, "start": np.arange(n, dtype=np.int64), "end": np.arange(n, dtype=np.int64) + 1})
+            M = 1_000_000
+            k = case.get("shift", 0)            # row 1 starts at offset 10^6 + shift
+            b1 = np.concatenate([np.zeros(M + k, dtype=np.int64), np.ones(M, dtype=np.int64), np.full(2, 2), np.full(1, n - 1)])
+            b2 = np.concatenate([np.arange(M + k), np.arange(1, M + 1), np.array([2, 5]), np.array([n - 1])]).astype(np.int64)
+            df = pd.DataFrame({"bin1_id": b1, "bin2_id": b2, "count": np.ones(len(b1), dtype=np.int32)})
+            impl(cooler.create_cooler, p, bdf, df, ordered=True)
+        else:
+            bins = gen.layout_bins([n], 10)
+            iu = np.triu_indices(n)
+            b1, b2 = iu[0].astype(np.int64), iu[1].astype(np.int64)
+            df = pd.DataFrame({"bin1_id": b1, "bin2_id": b2, "count": np.ones(len(b1), dtype=np.int32)})
+            impl(cooler.create_cooler, p, gen.bins_df(bins), df, ordered=True)
         import h5py
         with h5py.File(p, "r") as f:
             off = f["indexes/bin1_offset"][:]
@@ -425,6 +437,8 @@ def _bigindex(case):
         assert nnz > 1_000_000
         # rows around the block boundary and a spread of others: Lean evaluates the index of the window
         row_at = int(bin1[1_000_000])
+        if case.get("bigrow"):
+            row_at = 1
         lo = max(0, row_at - 2)
         hi = min(n, row_at + 3)
         sel = bin1[(bin1 >= lo) & (bin1 < hi)]          # the stored records of rows [lo, hi)
@@ -506,6 +520,10 @@ def cases(tier, rng):
     for k in range(30 if thorough else 6):
         yield "cli_load", {"seed": rng.randrange(10 ** 9), "n": rng.randint(2, 6), "fmt": "coo" if k % 2 else "pairs"}
     yield "bigindex", {"n": 1600 if thorough else 1450}     # 1 051 975 pixels already cross the literal 10^6 block (1.5 s)
+    yield "bigindex", {"n": 0, "bigrow": True}              # a row that IS a whole block, starting exactly on the block boundary
+    if thorough:
+        yield "bigindex", {"n": 0, "bigrow": True, "shift": 1}
+        yield "bigindex", {"n": 0, "bigrow": True, "shift": 999_999}
 
 
 def shrink(name, case):
